@@ -118,12 +118,29 @@ def shrink(t, sv, mode, lz):
     return t, sv
 
 
+def unplaceholder(line):
+    """a mutant can put base58 text at a `string`-typed leaf: the model then holds the placeholder as a plain string"""
+    if ' s23' not in ' ' + line and ' S23' not in ' ' + line:
+        return line
+    out = []
+    for tok in line.split(' '):
+        if tok.startswith('s23') or tok.startswith('S23'):       # value token / Micheline token inside a lambda body
+            try:
+                tok = tok[0] + g.from_placeholders({'string': bytes.fromhex(tok[1:]).decode()})['string'].encode().hex()
+            except Exception:
+                pass
+        out.append(tok)
+    return ' '.join(out)
+
+
 def ts_bucket(v):
     return ('before-year-1' if v < RFC_LO else 'year-1..999' if v < -30610224000 else 'year-1000..9999' if v <= RFC_HI else 'after-year-9999')
 
 
-def violation_key(t, sv, mode):
+def violation_key(t, sv, mode, detail=''):
     p = t['prim']
+    if "unhashable type: 'unit'" in detail:
+        return f'dep-C03:unit-unhashable:{p}:{mode}'     # `unit.__hash__` is missing: check_constraints of a set / map with unit keys raises
     if sv[0] == 'ts':
         return f'timestamp-{mode}:{ts_bucket(sv[1])}'
     if sv[0] == 'dom':
@@ -244,7 +261,7 @@ def run(ctx):
         "int(str) of Python is modelled for plain decimal spellings only; JSON-level spellings ('007', upper-case hex) are normalised before the AST",
     ]
     ctx.extra['pair_keys_generated'] = pairs_ok
-    n_rand = 420 if ctx.tier == 'quick' else 12000
+    n_rand = 420 if ctx.tier == 'quick' else 40000
     rng = ctx.rng
 
     cases = []          # (label, type, sv)
@@ -316,8 +333,8 @@ def run(ctx):
             ok, detail = roundtrip(t, sv, mode, lz)
             if not ok:
                 mt, msv = shrink(t, sv, mode, lz)
-                key = violation_key(mt, msv, mode)
                 _, mdetail = roundtrip(mt, msv, mode, lz)
+                key = violation_key(mt, msv, mode, mdetail)
                 if (key, mode) not in failing_seen or len(failing_seen) < 40:
                     failing_seen.add((key, mode))
                     ctx.violation(key, f'{mt["prim"]} value {" ".join(g.sv_tokens(mt, msv))[:120]} in {mode} mode: {mdetail}',
@@ -362,7 +379,7 @@ def run(ctx):
         ctx.case({'stream': 'parse', 'spelling': name, 'type': t if len(json.dumps(t)) < 200 else '<large>', 'micheline': json.dumps(mm)[:200]}, nontrivial=True)
         ctx.count('spelling', name.split('-')[0] if name.startswith('inner') else name)
         ctx.count('parse_verdict', 'err' if impl == 'err' else 'ok')
-        if model is not None and model[i] != impl:
+        if model is not None and unplaceholder(model[i]) != impl:
             ctx.mismatch('parse', {'type': t, 'spelling': name, 'micheline': json.dumps(mm)[:300]}, impl[:300], model[i][:300])
 
     # ---------------------------------------------------------------- clock stream (driver environment vs datetime)
